@@ -40,6 +40,16 @@ type Ctx struct {
 	chaCG   *callgraph.Graph
 	allFns  map[*ssa.Function]bool
 	srcFns  []*ssa.Function // functions (incl. anonymous) with source in the repository
+	e1      *E1
+}
+
+// E1 returns the (lazily computed) ownership/effects analysis of this program.
+func (c *Ctx) E1() *E1 {
+	if c.e1 == nil {
+		c.e1 = NewE1(c)
+		c.e1.Run()
+	}
+	return c.e1
 }
 
 type undecided struct{ msg string }
